@@ -1025,12 +1025,14 @@ class XPathToken(Token[ta.XPathTokenType]):
                 return str(obj).upper()
 
             value = str(obj)
-            if '.' in value:
-                value = value.rstrip('0').rstrip('.')
-            if '+' in value:
-                value = value.replace('+', '')
             if 'e' in value:
-                return value.upper()
+                # Strip the trailing zeros of the mantissa, not the ones of the exponent
+                mantissa, exponent = value.split('e')
+                if '.' in mantissa:
+                    mantissa = mantissa.rstrip('0').rstrip('.')
+                return '%sE%s' % (mantissa, exponent.replace('+', ''))
+            elif '.' in value:
+                value = value.rstrip('0').rstrip('.')
             return value
 
         elif isinstance(obj, self.registry.function_token):
